@@ -76,7 +76,10 @@ def build_tool(name, extract_v, src_dirs):
     deps = [os.path.join(vcheck.COQ, extract_v), os.path.join(vcheck.VERIF, "ocaml", "common", "driver.ml")]
     for d in src_dirs:
         dd = os.path.join(vcheck.COQ, d)
-        deps += [os.path.join(dd, f) for f in os.listdir(dd) if f.endswith(".v")]
+        if dd.endswith(".v"):
+            deps.append(dd)
+        else:
+            deps += [os.path.join(dd, f) for f in os.listdir(dd) if f.endswith(".v")]
     try:
         t = os.path.getmtime(exe)
         if all(os.path.getmtime(p) < t for p in deps):
@@ -159,7 +162,7 @@ class Validator:
                 continue
             for oi, o in enumerate(option_sets):
                 jobs.append({"id": "%d/%d" % (i, oi), "src": p[1], "opts": opts_for(o, r["ir"])})
-        res = glslcorr.compile_jobs(self.tools, jobs)
+        res = glslcorr.compile_jobs(self.tools, jobs, want=())      # (the IR dump of the base compile is reused)
         # 2. build cases
         ircases, irkeys = [], {}
         glcases, glmeta = [], []
@@ -438,8 +441,8 @@ def run(ctx):
     tools = vcheck.build_harness(["glsldrive", "goextract", "nagadrive"])
     lap("build_harness")
     if getattr(ctx, "replay", None):
-        replay(ctx, tools, build_tool("irrun", "Extract/IrRunExtract.v", ["IR", "Base", "Gen"]),
-               build_tool("glslrun", "Extract/GlslRunExtract.v", ["Glsl", "IR", "Base"]), glslcorr.enums(tools))
+        replay(ctx, tools, build_tool("irrun", "Extract/IrRunExtract.v", ["IR/Syntax.v", "IR/Decode.v", "IR/Values.v", "IR/Sem.v", "Base", "Gen/IrEnums.v"]),
+               build_tool("glslrun", "Extract/GlslRunExtract.v", ["Glsl/Syntax.v", "Glsl/Ops.v", "Glsl/Sem.v", "Glsl/Decode.v", "IR/Values.v", "Base"]), glslcorr.enums(tools))
         return
     generr = []
 
@@ -490,8 +493,8 @@ def run(ctx):
     gl = getattr(gen.gen_glsloptable, "last", None)
     ctx.cov["probe_table"] = gl
     lap("proof_step")
-    irx = build_tool("irrun", "Extract/IrRunExtract.v", ["IR", "Base", "Gen"])
-    glx = build_tool("glslrun", "Extract/GlslRunExtract.v", ["Glsl", "IR", "Base"])
+    irx = build_tool("irrun", "Extract/IrRunExtract.v", ["IR/Syntax.v", "IR/Decode.v", "IR/Values.v", "IR/Sem.v", "Base", "Gen/IrEnums.v"])
+    glx = build_tool("glslrun", "Extract/GlslRunExtract.v", ["Glsl/Syntax.v", "Glsl/Ops.v", "Glsl/Sem.v", "Glsl/Decode.v", "IR/Values.v", "Base"])
     en = glslcorr.enums(tools)
     lap("extracted_tools")
     # ---- differential validation of whole programs
